@@ -12,7 +12,7 @@ import (
 )
 
 func init() {
-	register("C08", "Structural clauses behind schedule independence, decided on all paths: every SendMsg of the transfer goes through the mutex-holding wrapper (field provenance + lockset), all RecvMsg sites of an end sit in one goroutine started once, the shared maps/counters are only touched with their mutex held (must-hold lockset), writer results are published before the channel that signals them is closed, and every struct field mutated after construction is classified (lock / publish / confined / reasoned). Does not decide absence of data races in general nor equality of outcomes across schedules.", runC08)
+	register("C08", "Structural clauses behind schedule independence, decided on all paths: every SendMsg of the transfer goes through the mutex-holding wrapper (field provenance + lockset), all RecvMsg sites of an end sit in one goroutine started once, the shared maps/counters are only touched with their mutex held (must-hold lockset), writer results are published before the channel that signals them is closed, and every struct field mutated after construction is classified (lock / publish / confined / reasoned). What the decoder stores in a message never aliases its input (the transport buffer the next RecvMsg refills while other goroutines still read the previous stat): Unmarshal delegates to the copying UnmarshalVT and UnmarshalVTUnsafe has no caller. Does not decide absence of data races in general nor equality of outcomes across schedules.", runC08)
 }
 
 // lockTable: (struct, field) -> mutex field, frozen from the code (DESIGN R08.3).
@@ -42,6 +42,11 @@ func runC08(c *Ctx) {
 	// STATs to the writer never waits on a context-free primitive such as a
 	// limited writer group (shared with C04/C07)
 	r04_11(c, "R08.10")
+	// "a buffer reused before it is consumed": what the decoder stores in a
+	// message never aliases the transport's receive buffer, which the next
+	// RecvMsg refills while the diff and writer goroutines still read the
+	// previous stat (shared with C20)
+	r20_2(c, "R08.11")
 }
 
 // R08.1: all sends are serialised.
